@@ -234,6 +234,7 @@ pub fn run(env: &mut Env) -> Outcome {
         cfg.restricted = ctx.chance("restricted", 1, 5);
         cfg.blank = ctx.chance("blank", 1, 5);
         let mut params = ServerParams::default_for(2);
+        params.tls12 = ctx.chance("tls12_server", 1, 3);
         params.cert = if env.thorough { (env.case % FIXTURES.len() as u64) as usize } else { ctx.choose("cert", FIXTURES.len() as u64) as usize };
         let net = gen_benign_net(&mut ctx);
         ctx.step_budget = 100_000;
